@@ -2,7 +2,7 @@
 
 PROP = dict(
     level="proof",
-    lean_modules=['PopsModel.Props.C12', 'PopsModel.Props.C20'],
+    lean_modules=['PopsModel.Props.C12', 'PopsModel.Props.C20', 'PopsModel.Props.NonVacuous.Host'],
     theorems=['Pops.C12_establish_event', 'Pops.C12_no_susceptible', 'Pops.C12_suitability_range_rejected', 'Pops.C12_lethal', 'Pops.C12_survival', 'Pops.C12_weather_range', 'Pops.C12_weather_degenerate', 'Pops.C20_err_probabilities'],
     commands=['hp.dispto', 'hp.lethal', 'hp.survival', 'err.weatherdist', 'err.suitability'],
     runs={
